@@ -4,7 +4,7 @@ import numpy as np
 
 from .base import Prop
 from ..world import World, _c, method_class, _MonitorCallback
-from ..peers import SimRHS, SimEvent, Boom, BudgetExceeded, WallTimeout
+from ..peers import SimRHS, SimJac, SimEvent, Boom, BudgetExceeded, WallTimeout
 from ..runner import absorb
 from ..refmodels import bitwise_equal, eps_of, canon_bytes
 from .. import gen, seams, oracles
@@ -17,6 +17,16 @@ def make_fun(simrhs, names):
     kw = ", ".join("%s=%s" % (n, n) for n in names)
     exec("def fun(t, y%s):\n    return _rhs(t, y%s)\n" % (args, (", " + kw) if kw else ""), ns)
     return ns["fun"]
+
+
+def wrap_with_jacobian(world, fun):
+    """the user hands over the right-hand side already wrapped (DiffRHS / rhs_prettifier) with an analytic Jacobian hooked on."""
+    import desolver as de
+    d = de.DiffRHS(fun)
+    J = SimJac(world, world.problem, "hook")
+    world.jac_peers = [J]
+    d.hook_jacobian_call(J)
+    return d
 
 
 class ClipCallback(object):
@@ -54,6 +64,8 @@ class FacadeWorld(World):
             p = self.problem
             names = list(f.get("arg_names", []))
             fun = make_fun(self.rhs, names)
+            if f.get("wrapped_jac"):
+                fun = wrap_with_jacobian(self, fun)
             y0 = p.y0()
             self.caller_y0_copy = _c(y0)
             kw = {}
@@ -114,6 +126,8 @@ class ObjectWorld(World):
         self.events = [SimEvent(self, i, d) for i, d in enumerate(self.scn.get("events", []))]
         # the facade passes fun itself; the object API is given the same kind of callable
         fun = make_fun(self.rhs, names)
+        if f.get("wrapped_jac"):
+            fun = wrap_with_jacobian(self, fun)
         self.system = de.OdeSystem(fun, y0, t=(s["t0"], s["tf"]), dense_output=bool(s.get("dense")), dt=dt,
                                    atol=s.get("atol"), rtol=s.get("rtol"), constants=consts)
         self._wrap_integrate(self.system)
@@ -153,7 +167,7 @@ class C18(Prop):
     thorough = {"seeds": 50000, "wall_cap": 1500, "chunk": 32}
     rule = ("one case = one seeded call of solve_ivp (method by registered name/alias or by class, all families; state shapes (n,), (n,m), (n,1,m); args "
             "tuples of 0-3 constants bound by position; t_eval None / subsets with or without the end points, unsorted, with repeats; dense_output; "
-            "events; first_step; max_step; tolerances; forward spans of any sign) run in world A, and in world B the object API driven with the op "
+            "events; first_step; max_step; tolerances; the right-hand side as a plain function or already wrapped with a hooked analytic Jacobian; forward spans of any sign) run in world A, and in world B the object API driven with the op "
             "sequence the facade performs under the SAME simulated peers; 15% of cases inject an rhs fault at the same global call index in both worlds. "
             "Closed-form problems are additionally compared with scipy.integrate.solve_ivp.  Non-trivial = at least one recorded step")
     assumptions = ["forward spans only (the statement does not quantify over direction)",
@@ -206,6 +220,9 @@ class C18(Prop):
         if r.random() < 0.25 and scn["problem"]["family"] == "osc":
             scn["events"] = gen.gen_events(r, scn, r.choice([1, 2]), terminal_prob=0.3)
             facade["events"] = list(range(len(scn["events"])))
+        rw_ = gen.sub(seed, "wrapped")
+        if rw_.random() < (0.5 if gen.is_implicit(m) else 0.1):
+            facade["wrapped_jac"] = True
         scn["facade"] = facade
         s["constants"] = {} if not args else {k: v for k, v in zip(names, args)}
         scn["ops"] = [{"op": "integrate"}] if t_eval is None else [{"op": "integrate", "t": t} for t in sorted(t_eval)]
